@@ -15,8 +15,11 @@ func (c *WebserverConfig) setRestartNeededProps() {
 }
 
 func (c *WebserverConfig) verify(v view) error {
-	if c.Listen.pending(v) == "" {
-		return fmt.Errorf("webserver.listen cannot be empty")
+	if err := verifyListenAddress("webserver.listen", c.Listen.pending(v)); err != nil {
+		return err
+	}
+	if c.ApiDisabled.pending(v) && !c.DashboardDisabled.pending(v) {
+		return fmt.Errorf("webserver.api_disabled requires webserver.dashboard_disabled: the dashboard needs the API")
 	}
 	return nil
 }
